@@ -41,7 +41,11 @@ CHECKS = {
            "permitted number of times, also in place inside any surrounding concatenation (C07_alternation_composes_in_place, C07_repetition_composes_in_place); "
            "the program of a combinator matches exactly the union of its patterns' programs; alternation of programs is union; grouping mode is "
            "irrelevant to the language. Tie: any() tree/program/is_match. Oracle: substitution / unrolling / wrapping families compared on the implementation.",
-    'C08': "Proved: partitioning a built glob is total up to checked overflow (C08_partition_is_total_up_to_overflow: the top-level tokens tile the expression, so the "
+    'C08': "Proved (all built globs x all texts): the partition equation at the level of the documented language (C08_partition_preserves_the_language: the texts of the "
+           "glob are the invariant prefix followed by the texts of the postfix; a tree wildcard after the prefix gives up its separator; the prefix may be any run of "
+           "tokens with invariant text; C08_partition_without_prefix for globs without prefix or beginning with a rooted tree wildcard) and idempotence "
+           "(C08_partition_is_idempotent: partitioned again, the postfix yields an empty prefix and itself, outside the known class rooted_repetition). "
+           "Proved: partitioning a built glob is total up to checked overflow (C08_partition_is_total_up_to_overflow: the top-level tokens tile the expression, so the "
            "popped bytes end where a token begins and an unrooted tree wildcard skips one ASCII character; the postfix always re-annotates); the display-suffix "
            "arithmetic (dropping the popped bytes leaves the suffix on a character boundary). Tie: every observable of partition() vs the model. "
            "Oracle: glob matches p <=> prefix joined with a remainder the postfix matches; postfix unrooted; re-partition identity; rebuild of the displayed postfix.",
@@ -49,14 +53,21 @@ CHECKS = {
            "rule-checked pattern not ending in a separator (C09_flat_always_sound: an Always verdict of the model of the pinned code means the last tree wildcard is "
            "followed by `*` components only - C09_always_means_open_tail - and then everything beneath a matched path is matched). Tie: is_exhaustive() and the negation's "
            "exhaustive/non-exhaustive partition vs the model of the repaired sequencer. Oracle: for every Always verdict, descendants of matched canonical paths are matched.",
-    'C10': "Proved (partial, stated as such): for patterns that are a concatenation of leaves without tree wildcards the reported depth is invariant and equals the "
-           "component count of every canonical path of the documented language (C10_flat_sound; the general statement is in the file as C10_full). Tie: depth() exact variance vs the model of the whole algebra "
+    'C10': "Proved (partial, stated as such; all patterns of the class x all canonical paths): every pattern without repetitions - alternations, concatenations, leaves "
+           "and tree wildcards at any nesting - reports a depth variance that contains the component count of every matched canonical path "
+           "(C10_patterns_without_repetitions_sound / C10_built_globs_without_repetitions_sound: terms are sound summaries of flat sequences, summaries compose under "
+           "conjunction whatever the grouping, the disjunction covers its operands; the matching expansion has no adjacent boundaries; the known class closed_variant_finalize "
+           "is excluded by its predicate); every flat glob that builds, with or without tree wildcards (C10_built_flat_globs_sound, C10_flat_with_tree_wildcards_sound, "
+           "C10_flat_sound: exact depth without tree wildcards, a sound lower bound with them). Patterns with repetitions: the general statement is in the file as C10_full. Tie: depth() exact variance vs the model of the whole algebra "
            "(conjunction table, disjunction over hash sets, products, finalize). Oracle: component count of every matched canonical path within the reported variance.",
     'C11': "Proved (all token trees, combinators included): C11_one_and_only - if the pattern reports invariant text, its documented language is exactly that text: no "
            "other text belongs to it (C11_unique; hypothesis on the two tables: a caseless character only folds to itself; validated over all code points on every "
-           "run) and the text does (C11_matched; for trees in which no class lists the separator - the known class separator_class); two different texts => variant. "
+           "run) and the text does (C11_matched; for trees in which no class lists the separator - the known class separator_class); two different texts => variant; "
+           "for every glob that builds the side condition on the tree is discharged (C11_built_globs_one_and_only: the parser never produces an empty branch, the rule "
+           "checker rejects the bounds 0,0). "
            "Tie: text() vs the model. Oracle: invariant text is matched (absent separator classes) and is the only matched path, incl. its case variants.",
-    'C12': "Proved (all token trees, combinators included): has_root = Always => every path of the documented language begins with a separator; "
+    'C12': "Proved (all token trees, combinators included): has_root = Always => every path of the documented language begins with a separator "
+           "(C12_built_root_sound: for every glob that builds, without side condition); "
            "C12_semantic_literals_found - the breadth-first literal search reaches every component at every nesting depth (fuel proved adequate), so a component spelled "
            "`.` or `..` anywhere makes has_semantic_literals true. Tie: has_root(), "
            "has_semantic_literals(). Oracle: matched paths of always-rooted patterns; globs never Sometimes (one known class); `.`/`..` components at any depth.",
